@@ -922,7 +922,10 @@ class Executor:
             if t.endswith(')') is False and ') -> ' in t:
                 dest, callee, argstr, tail = self.split_call(t)
                 args = [self.operand(frame, a, f) for a in split_top(argstr)]
-                rv = self.do_call(callee, args, f)
+                if callee.startswith('copy ') or callee.startswith('move '):
+                    rv = self.call_closure(self.operand(frame, callee, f), args)       # call through a fn pointer / closure value
+                else:
+                    rv = self.do_call(callee, args, f)
                 rm = re.search(r'return: (bb\d+)', tail)
                 if not rm:
                     bm = re.match(r'^(bb\d+)$', tail)
